@@ -72,7 +72,17 @@ func (r *run) script(timeout int, match func() []byte, other func() []byte) []ar
 			data = r.g.Bytes(1 + r.g.R.Intn(30))
 		default:
 			f := append([]byte(nil), match()...)
-			f[6+r.g.R.Intn(len(f)-6)] = byte(r.g.Pick(0, 1, 255, 200))
+			if r.g.R.Intn(3) == 0 {
+				// an otherwise complete response under a header that is not KNXnet/IP 1.0
+				if r.g.R.Intn(2) == 0 {
+					f[1] = byte(r.g.Pick(0x20, 0x11, 0x00))
+				} else {
+					f[0] = byte(r.g.Pick(8, 5, 0))
+				}
+				r.classes["script-response-with-foreign-header"]++
+			} else {
+				f[6+r.g.R.Intn(len(f)-6)] = byte(r.g.Pick(0, 1, 255, 200))
+			}
 			data = f
 		}
 		foreign := r.g.R.Intn(8) == 0
@@ -248,9 +258,13 @@ func discoverBounded(addr string, timeout int) ([]*knxnet.SearchRes, error, bool
 
 // expectDescribe / expectDiscover: what the property's statement demands for a script, using the
 // library's decoder only to tell which datagrams are well-formed responses
+// frameHeaderOK: the fixed part of the KNXnet/IP header, by the specification (header length 6,
+// protocol version 0x10) - checked here independently of the library's decoder
+func frameHeaderOK(d []byte) bool { return len(d) >= 6 && d[0] == 6 && d[1] == 0x10 }
+
 func expectDescribe(timeout int, s []arrival) string {
 	for _, a := range s {
-		if a.foreign || a.at >= timeout {
+		if a.foreign || a.at >= timeout || !frameHeaderOK(a.data) {
 			continue
 		}
 		var svc knxnet.Service
@@ -267,7 +281,7 @@ func expectDescribe(timeout int, s []arrival) string {
 func expectDiscover(timeout int, s []arrival) string {
 	var parts []string
 	for _, a := range s {
-		if a.foreign || a.at >= timeout {
+		if a.foreign || a.at >= timeout || !frameHeaderOK(a.data) {
 			continue
 		}
 		var svc knxnet.Service
